@@ -12,12 +12,16 @@ CHECKS = {
     "C01": (
         "exploration",
         "property-based testing (Hypothesis token soups / grammar documents / "
-        "page mutations) against a tree-validity predicate",
+        "page mutations), exhaustive enumeration of all triples over a "
+        "core token alphabet, and coverage-guided fuzzing (atheris / "
+        "libFuzzer) against a tree-validity predicate",
         "Generated-input search: thousands (quick) to millions (thorough) of "
-        "token soups, grammar documents, mutated real pages and deep nestings "
-        "are parsed in three modes and the returned tree is checked against "
-        "the well-formedness predicate of the statement; absence of a "
-        "counterexample within that search, not a proof.",
+        "token soups, grammar documents, mutated real pages and deep nestings, "
+        "every triple of a 51-token core alphabet, and coverage-guided "
+        "campaigns with the oracle inside the target are parsed in three "
+        "modes and the returned tree is checked against the well-formedness "
+        "predicate of the statement; absence of a counterexample within that "
+        "search, not a proof.",
         "Trusts the validity predicate refs/tree.py and CPython; placeholder "
         "code points are excluded by the documented precondition.",
         "DESIGN.md 5/C01",
@@ -278,9 +282,12 @@ CHECKS = {
         "programs executed for real with canaries",
         "Every value reachable from the module environment, the frame, the "
         "string metatable, require / _cached_mod / _new_loader of every "
-        "known module name and every filter-passing attribute of every "
+        "known module name in 20 decorated spellings, the results and error "
+        "values of every frame method / helper / parser function called with "
+        "hostile arguments, and every filter-passing attribute of every "
         "reachable Python object is compared by identity with the host's "
-        "forbidden capabilities and classified; 40 classic escapes and "
+        "forbidden capabilities and classified (the attribute filter itself "
+        "is probed from the Lua side); 47 classic escapes and "
         "generated path programs run in scratch directories with canary "
         "file, environment variable, database and context snapshots.",
         "Exhaustive only for the stated edge alphabet (no upvalues, helpers "
@@ -298,8 +305,9 @@ CHECKS = {
         "delays; state oracle from a pristine process",
         "Every executed source line of create_db, backup_db, close_db_conn, "
         "add_page, overwrite_pages, overwrite_single_page and "
-        "analyze_and_overwrite_pages in a scripted life-cycle (two WAL "
-        "variants x backup / no-backup flow) is used as a kill point "
+        "analyze_and_overwrite_pages in a scripted life-cycle (three variants: "
+        "checkpointed / pending WAL / uncommitted tail x backup / no-backup / "
+        "double-backup flow) is used as a kill point "
         "(thorough: all ~1500 events per configuration, the recovering open "
         "killed at each of its lines for every third point, 80 SIGKILLs on a "
         "4 MB database; quick: every distinct line plus every 5th event); a "
@@ -320,8 +328,10 @@ CHECKS = {
         "differential against a single process",
         "2-3 real worker processes on one database file are advanced line by "
         "line through create_db / init_wikidata_cache / "
-        "add_empty_sandbox_lua_module / add_page by a scheduler that follows "
-        "every single-preemption schedule and random schedules; 2-16 "
+        "add_empty_sandbox_lua_module / add_page, and parked between pages, "
+        "by a scheduler that follows every single-preemption schedule, hold "
+        "schedules and random schedules (backup file and stale write-ahead "
+        "log present or absent); 2-16 "
         "free-running workers add timing-dependent coverage. No worker may "
         "raise, every result must equal the single-process result, stored "
         "rows must be unchanged. Sampled / preemption-bounded, not all "
